@@ -9,8 +9,10 @@ Seams     P  parse_tag(text, parser) followed by TagValueStruct.compile() of eve
              registered django-components @template_tag, so `{%a ...%}` reaches parse_tag).
 Parts     tag_strings   every string of <= L tokens over the 19-token syntax alphabet
                         (quick L=4: 137 561, thorough L=5: 2 613 660) through P and the 7 H seams;
-          templates     every string of <= L tokens over the 27-token template alphabet
-                        (syntax alphabet + {% %} {{ }} {# #} newline and the opener `{%a `) through W;
+          templates     every string of <= L tokens over the 28-token template alphabet
+                        (syntax alphabet + {% %} {{ }} {# #} newline, a lone `%` and the opener `{%a `) through W;
+          truncations   every proper prefix (character granularity) of every valid whole template
+                        (documented-syntax tag x 2 heads) through W: end of input in every scanner state.
           mutations     every single-token delete / duplicate / neighbour-swap of every tag of
                         a generated family of documented-syntax tags, through P and 2 H seams;
           roundtrip     for every generated tag: parse_tag(serialize(parse_tag(t))) == parse_tag(t)
@@ -71,7 +73,7 @@ LEVEL = "model_checking"
 DJANGO = {}
 
 TAG_ALPHABET = ["a", '"', "'", "[", "]", "{", "}", ":", ",", "|", "=", "...", "*", "**", "_(", ")", "\\", " ", "/"]
-TPL_ALPHABET = TAG_ALPHABET + ["%}", "{{", "{%", "#}", "\n", "}}", "{#", "{%a "]
+TPL_ALPHABET = TAG_ALPHABET + ["%}", "{{", "{%", "#}", "\n", "}}", "{#", "{%a ", "%"]
 HEADS = [
     ("component 'c'", "endcomponent"),
     ("component", "endcomponent"),
@@ -388,6 +390,7 @@ def valid_tags(thorough: bool):
         ["a"], ["1"], q("s"), ["'", "s", "'"], ['"', "x", " ", "y", '"'], ["_(", '"', "t", '"', ")"], ["a", ".", "k"],
         ["a", "|", "upper"], ["a", "|", "default", ":", '"', "x", '"'], q("s") + ["|", "upper"], ['"', "{{", " ", "a", " ", "}}", '"'],
         ['"', "e", "\\", '"', "e", '"'],
+        ['"', "x", " ", "%}", '"'], ['"', "{%", " ", "a", " ", "%}", '"'],  # tag end / whole nested tag inside a string
     ]
     if thorough:
         leaves += [["a", "|", "default", ":", "b", "|", "upper"], ["_(", "'", "t", "'", ")"], ["a", " ", "|", " ", "default", " ", ":", " ", '"', "x", '"']]
@@ -595,6 +598,21 @@ def _worker_mut(w, W, payload):
         if rec.hangs >= MAX_HANGS:
             agg.caps.append(f"worker {w} stopped after {rec.hangs} hangs")
             break
+    # truncations: every proper prefix of every valid whole template (end of input in every scanner state)
+    for i, text in enumerate(_VALID):
+        if i % W != w or rec.hangs >= MAX_HANGS:
+            continue
+        for head in MUT_HEADS:
+            src = head_source(head, text)
+            agg.extra["trunc:states"] += 1
+            for cut in range(len(src)):
+                res = guarded("T", src[:cut])
+                agg.extra["trunc:transitions"] += 1
+                agg.extra["trunc:T:" + _cls(res)] += 1
+                if res[0] == "TSE" and res[2]:
+                    agg.extra["trunc:nontrivial"] += 1
+                agg.observe(("tr", res[0], res[1] if res[0] != "ok" else None))
+                rec.outcome("truncations", "Template:" + head[0], "T", src[:cut], (cut, src[:cut]), res)
     rec.flush()
     return agg
 
@@ -800,6 +818,14 @@ def families():
     for pre, post in [("{% a ", " %}"), ("{% a [", "] %}"), ('{% a "', '" %}')]:
         for u in units:
             fams.append(("T", pre, u, post))
+    # a quoted argument with a nested-expression opener that is never closed (a plain string): the classifier of
+    # dynamic expressions (DYNAMIC_EXPR_RE, run by compile()) has to give up on it in polynomial time
+    for opener in ("{{", "{%", "{#"):
+        for u in units:
+            fams.append(("P", 'a="' + opener, u, '"'))
+        for u in units:
+            if len(u) == 1 or u in NAMED_TAG_UNITS or u in TAG_ALPHABET:
+                fams.append(("T", '{% a "' + opener, u, '" %}'))
     tunits = ["".join(s) for n in (1, 2) for s in product(TPL_ALPHABET, repeat=n)] + NAMED_UNITS
     for pre, post in [("", ""), ("{%a ", ""), ("{{", ""), ('{%a "', ""), ("", "%}")]:
         for u in tunits:
@@ -963,6 +989,13 @@ def run(ctx):
                 expected=Counter({k[4:]: v for k, v in agg.extra.items() if k.startswith("mut:P:") or k.startswith("mut:H:")}),
                 bound={"valid_tags": len(_VALID), "mutations": ["delete", "duplicate", "swap neighbours"]},
                 samples=[{"valid": _VALID[len(_VALID) // 2]}])
+    if agg.extra["trunc:states"] != len(_VALID) * len(MUT_HEADS) and not agg.caps:
+        raise par.HarnessError("truncation enumeration incomplete")
+    ev.add_part("truncations", states=agg.extra["trunc:states"], transitions=agg.extra["trunc:transitions"], validated=agg.extra["trunc:transitions"],
+                nontrivial=agg.extra["trunc:nontrivial"],
+                expected=Counter({k[6:]: v for k, v in agg.extra.items() if k.startswith("trunc:T:")}),
+                bound={"valid_templates": len(_VALID) * len(MUT_HEADS), "cuts": "every proper prefix (character granularity)"},
+                samples=[{"input": "{% component 'c' \"x %}\" %", "expect": "TemplateSyntaxError"}])
     ev.add_part("roundtrip", states=agg.extra["rt:states"], transitions=agg.extra["rt:transitions"], validated=agg.extra["rt:ok"],
                 nontrivial=agg.extra["rt:ok"], expected=Counter({"accepted": agg.extra["rt:ok"], "rejected_valid": agg.extra["rt:rejected"]}),
                 bound={"valid_tags": len(_VALID)})
